@@ -24,7 +24,7 @@ def setup(E):
     E.spec("kids", "n: Node", "Seq[Node]", None)
     E.axiom("ete3/children-binary", """forall(lambda n: implies(binary(rootof(n)) and not leaf(n),
              len(kids(n)) == 2 and kids(n)[0] == left(n) and kids(n)[1] == right(n)), Node)""",
-            "TreeNode.children of an internal node of a binary tree is [left, right]")
+            "TreeNode.children of an internal node of a binary tree is [left, right]", keys=["kids"])
     E.axiom("ete3/children-rooted", """forall(lambda n: implies(not leaf(n), rootof(left(n)) == rootof(n) and rootof(right(n)) == rootof(n)), Node)""",
             "children belong to the same tree")
     E.axiom("ete3/binary-subtree", "forall(lambda n: binary(rootof(n)) == binary(rootof(rootof(n))), Node)", "trivial")
@@ -94,3 +94,246 @@ def setup(E):
         requires=WF_OUT,
         ensures=["result == eval_cost(self.object_species, self.input.leaf_object_species, self.input.costs, self.input.object_tree)"],
         globals=G, props=["C06"]))
+
+
+def _labeling(E):
+    from pyvc.contracts import Contract, LoopSpec
+
+    add = E.registry.add
+    G = {"inf": E.globals["inf"]}
+    E.parents["SuperReconciliationInput"] = "ReconciliationInput"
+    E.parents["SuperReconciliationOutput"] = "ReconciliationOutput"
+    E.declare_class("SuperReconciliationInput", {
+        "object_tree": "Node", "species_lca": "LowestCommonAncestor", "leaf_object_species": "Map[Node, Node]",
+        "costs": "Map[Event, Ext]", "leaf_syntenies": "Map[Node, Seq[Elem]]"})
+    E.declare_class("SuperReconciliationOutput", {
+        "input": "SuperReconciliationInput", "object_species": "Map[Node, Node]",
+        "syntenies": "Map[Node, Seq[Elem]]", "ordered": "Bool"})
+
+    # ---- ordered model: segmental losses per lost run; ends free for the partial copy
+    E.spec("node_mask", "syn: Map[Node, Seq[Elem]], tree: Node, n: Node", "Int",
+           "pow2(len(syn[tree])) - 1 if n == tree else mask_from(syn[n], 0, syn[tree], 0)")
+    E.spec("olab_term", "rec: Map[Node, Node], lm: Map[Node, Node], syn: Map[Node, Seq[Elem]], tree: Node, u: Node", "Int", """
+        (segd(node_mask(syn, tree, left(u)), node_mask(syn, tree, u), True) + segd(node_mask(syn, tree, right(u)), node_mask(syn, tree, u), True))
+        if node_event_spec(rec, lm, u) == Event.SPECIATION else
+        (min(segd(node_mask(syn, tree, left(u)), node_mask(syn, tree, u), True) + segd(node_mask(syn, tree, right(u)), node_mask(syn, tree, u), False),
+             segd(node_mask(syn, tree, left(u)), node_mask(syn, tree, u), False) + segd(node_mask(syn, tree, right(u)), node_mask(syn, tree, u), True))
+         if node_event_spec(rec, lm, u) == Event.DUPLICATION else
+         (segd(node_mask(syn, tree, left(u)), node_mask(syn, tree, u), anc(rec[u], rec[left(u)]) or anc(rec[left(u)], rec[u]))
+          + segd(node_mask(syn, tree, right(u)), node_mask(syn, tree, u), not (anc(rec[u], rec[left(u)]) or anc(rec[left(u)], rec[u])))))""")
+    E.spec("olab_sum", "rec: Map[Node, Node], lm: Map[Node, Node], syn: Map[Node, Seq[Elem]], sl: Ext, tree: Node, k: Int", "Ext", """
+        0 if k <= 0 else olab_sum(rec, lm, syn, sl, tree, k - 1)
+            + (0 if leaf(pre_nth(tree, k - 1)) else olab_term(rec, lm, syn, tree, pre_nth(tree, k - 1)) * sl)""")
+    # ---- unordered model: one segmental loss per charged edge on which some parent family is missing
+    # some family of u is missing from c  (exists f: f in syn[u] and f not in syn[c]); stated with an explicit witness
+    E.spec("fam_lost", "syn: Map[Node, Seq[Elem]], u: Node, c: Node", "Bool", None,
+           native=lambda syn, u, c: any(f not in syn[c] for f in syn[u]))
+    E.spec("fam_wit", "syn: Map[Node, Seq[Elem]], u: Node, c: Node", "Elem", None)
+    E.spec_fact("fam_lost", "fam_lost/witness", "implies(fam_lost(syn, u, c), (fam_wit(syn, u, c) in syn[u]) and not (fam_wit(syn, u, c) in syn[c]))")
+    E.spec_fact("fam_lost", "fam_lost/intro", "forall(lambda f: implies((f in syn[u]) and not (f in syn[c]), fam_lost(syn, u, c)), Elem)")
+    E.spec("ulab_term", "rec: Map[Node, Node], lm: Map[Node, Node], syn: Map[Node, Seq[Elem]], sl: Ext, u: Node", "Ext", """
+        ((sl if fam_lost(syn, u, left(u)) else 0) + (sl if fam_lost(syn, u, right(u)) else 0))
+        if node_event_spec(rec, lm, u) == Event.SPECIATION else
+        (min(sl if fam_lost(syn, u, left(u)) else 0, sl if fam_lost(syn, u, right(u)) else 0)
+         if node_event_spec(rec, lm, u) == Event.DUPLICATION else
+         ((sl if fam_lost(syn, u, left(u)) else 0) if (anc(rec[u], rec[left(u)]) or anc(rec[left(u)], rec[u]))
+          else (sl if fam_lost(syn, u, right(u)) else 0)))""")
+    E.spec("ulab_sum", "rec: Map[Node, Node], lm: Map[Node, Node], syn: Map[Node, Seq[Elem]], sl: Ext, tree: Node, k: Int", "Ext", """
+        0 if k <= 0 else ulab_sum(rec, lm, syn, sl, tree, k - 1)
+            + (0 if leaf(pre_nth(tree, k - 1)) else ulab_term(rec, lm, syn, sl, pre_nth(tree, k - 1)))""")
+
+    WF_S = E._wf_out + [
+        ("syntenies-total", "forall(lambda n: implies(rootof(n) == self.input.object_tree, n in self.syntenies), Node)"),
+        ("events-valid", """forall(lambda n: implies(rootof(n) == self.input.object_tree and not leaf(n),
+              node_event_spec(self.object_species, self.input.leaf_object_species, n) != Event.INVALID), Node)"""),
+    ]
+    E._wf_s = WF_S
+    COMMON_INV = [
+        "tree == self.input.object_tree and rec == self.object_species and sloss_cost == self.input.costs[Event.SEGMENTAL_LOSS]",
+    ]
+    add(Contract(
+        f"{M}:SuperReconciliationOutput._ordered_labeling_cost",
+        params={"self": "SuperReconciliationOutput"}, returns="Ext",
+        requires=WF_S,
+        ensures=["""result == olab_sum(self.object_species, self.input.leaf_object_species, self.syntenies,
+                                     self.input.costs[Event.SEGMENTAL_LOSS], self.input.object_tree, size(self.input.object_tree))"""],
+        locals={"total_cost": "Ext", "masks": "Map[Node, Int]"}, globals=G, fuel=3,
+        at={"if event == NodeEvent.SPECIATION": [
+            "assert sub_mask == node_mask(self.syntenies, tree, node)",
+            "assert left_mask == node_mask(self.syntenies, tree, left(node))",
+            "assert right_mask == node_mask(self.syntenies, tree, right(node))"]},
+        loops={0: LoopSpec(
+            header="for node in tree.traverse('preorder')", index="k", length="n",
+            invariants=COMMON_INV + [
+                "root_syn == self.syntenies[tree]",
+                "total_cost == olab_sum(rec, self.input.leaf_object_species, self.syntenies, sloss_cost, tree, k)",
+                """forall(lambda m: implies(anc(tree, m) and (m == tree or pre_idx(tree, up(m)) < k),
+                        (m in masks) and masks[m] == node_mask(self.syntenies, tree, m) and masks[m] >= 0), Node)""",
+            ])},
+        props=["C06"]))
+    add(Contract(
+        f"{M}:SuperReconciliationOutput._unordered_labeling_cost",
+        params={"self": "SuperReconciliationOutput"}, returns="Ext",
+        requires=WF_S,
+        ensures=["""result == ulab_sum(self.object_species, self.input.leaf_object_species, self.syntenies,
+                                     self.input.costs[Event.SEGMENTAL_LOSS], self.input.object_tree, size(self.input.object_tree))"""],
+        locals={"total_cost": "Ext"}, globals=G, fuel=3,
+        at={"if event == NodeEvent.SPECIATION": [
+            "assert left_cost == (sloss_cost if fam_lost(self.syntenies, node, left(node)) else 0)",
+            "assert right_cost == (sloss_cost if fam_lost(self.syntenies, node, right(node)) else 0)"]},
+        loops={0: LoopSpec(
+            header="for node in tree.traverse('preorder')", index="k", length="n",
+            invariants=COMMON_INV + [
+                "total_cost == ulab_sum(rec, self.input.leaf_object_species, self.syntenies, sloss_cost, tree, k)",
+            ])},
+        props=["C06"]))
+    add(Contract(
+        f"{M}:SuperReconciliationOutput.reconciliation_cost",
+        params={"self": "SuperReconciliationOutput"}, returns="Ext", requires=WF_S,
+        ensures=["result == eval_cost(self.object_species, self.input.leaf_object_species, self.input.costs, self.input.object_tree)"],
+        globals=G, props=["C06"]))
+    LAB = """(olab_sum(self.object_species, self.input.leaf_object_species, self.syntenies, self.input.costs[Event.SEGMENTAL_LOSS], self.input.object_tree, size(self.input.object_tree))
+              if self.ordered else
+              ulab_sum(self.object_species, self.input.leaf_object_species, self.syntenies, self.input.costs[Event.SEGMENTAL_LOSS], self.input.object_tree, size(self.input.object_tree)))"""
+    add(Contract(
+        f"{M}:SuperReconciliationOutput.labeling_cost",
+        params={"self": "SuperReconciliationOutput"}, returns="Ext", requires=WF_S,
+        ensures=[f"result == {LAB}"], globals=G, props=["C06"]))
+    add(Contract(
+        f"{M}:SuperReconciliationOutput.cost",
+        params={"self": "SuperReconciliationOutput"}, returns="Ext", requires=WF_S,
+        ensures=[f"result == eval_cost(self.object_species, self.input.leaf_object_species, self.input.costs, self.input.object_tree) + {LAB}"],
+        globals=G, props=["C06"]))
+
+
+_setup_core = setup
+
+
+def setup(E):  # noqa: F811
+    _setup_core(E)
+    _labeling(E)
+
+
+def _scopes(E):
+    import itertools
+    from pyvc.driver import Scope
+    from pyvc import native
+    from standin import recon
+
+    def hook(ns, src_root):
+        mod = native.import_real(M, src_root)
+
+        class EventNS:
+            pass
+
+        for name in EVENTS:
+            setattr(EventNS, name, getattr(mod.NodeEvent, name, None) or getattr(mod.EdgeEvent, name))
+        ns["Event"] = EventNS
+        ns["NodeEvent"] = mod.NodeEvent
+        ns["EdgeEvent"] = mod.EdgeEvent
+
+    E.native_hooks.append(hook)
+
+    COSTS = [[0, 1, 1, 1, 1], [2, 3, 1, 2, 1], [1, 0, "inf", 0, 2], [5, 1, 2, 1, 0]]
+
+    def inputs(tier, rng, with_syn=False):
+        osz = (2, 3) if tier != "thorough" else (1, 2, 3, 4)
+        ssz = (1, 2, 3) if tier != "thorough" else (1, 2, 3, 4)
+        for on in osz:
+            for osh in recon.binary_shapes(on):
+                for sn in ssz:
+                    for ssh in recon.binary_shapes(sn):
+                        ns = 2 * sn - 1
+                        sleaves = None
+                        lms = list(itertools.product(range(ns), repeat=on))
+                        rng.shuffle(lms)
+                        for lm in lms[: (4 if tier != "thorough" else 12)]:
+                            yield {"obj": osh, "sp": ssh, "leafmap": list(lm), "costs": rng.choice(COSTS)}
+
+    def recs(recipe, rng, limit):
+        on = sum(1 for _ in _nodes(recipe["obj"]))
+        internal = [i for i, sh in enumerate(_nodes(recipe["obj"])) if sh]
+        ns = sum(1 for _ in _nodes(recipe["sp"]))
+        allc = list(itertools.product(range(ns), repeat=len(internal)))
+        rng.shuffle(allc)
+        for c in allc[:limit]:
+            yield dict(zip(internal, c))
+
+    def _nodes(sh):
+        yield sh
+        for c in sh:
+            yield from _nodes(c)
+
+    def gen_out(tier, rng):
+        for r in inputs(tier, rng):
+            for rec in recs(r, rng, 12 if tier != "thorough" else 60):
+                yield dict(r, rec={str(k): v for k, v in rec.items()})
+
+    def build_output(recipe, src_root, syn=None):
+        mod = native.import_real(M, src_root)
+        inp, onodes, snodes = recon.make_input(src_root, recipe)
+        rec = dict(inp.leaf_object_species)
+        for k, v in recipe["rec"].items():
+            rec[onodes[int(k)]] = snodes[v]
+        if syn is None:
+            out = mod.ReconciliationOutput(inp, rec)
+        else:
+            out = mod.SuperReconciliationOutput(input=inp, object_species=rec, syntenies={onodes[int(k)]: list(v) for k, v in syn.items()}, ordered=recipe["ordered"])
+        u = native.Universe()
+        u.domains["Node"] = onodes + snodes
+        u.domains["Int"] = list(range(-1, 4))
+        u.domains["Elem"] = list("abcd")
+        return out, onodes, snodes, u
+
+    def build_cost(recipe, src_root):
+        out, onodes, snodes, u = build_output(recipe, src_root)
+        return (lambda self: self.cost()), {"self": out}, u
+
+    def build_event(recipe, src_root):
+        out, onodes, snodes, u = build_output(recipe, src_root)
+        return (lambda self, node: self.node_event(node)), {"self": out, "node": onodes[recipe["node"]]}, u
+
+    def gen_event(tier, rng):
+        for r in gen_out(tier, rng):
+            n = sum(1 for _ in _nodes(r["obj"]))
+            yield dict(r, node=rng.randrange(n))
+
+    d = "binary object trees with 2-3 (1-4 thorough) leaves x species trees with 1-3 (1-4) leaves, sampled leaf assignments, 12 (60) random species mappings each (valid or not), four cost vectors incl. infinite transfer cost"
+    E.registry.scopes[f"{M}:ReconciliationOutput.cost"] = Scope(gen_out, build_cost, describe=d)
+    E.registry.scopes[f"{M}:ReconciliationOutput.node_event"] = Scope(gen_event, build_event, describe=d)
+
+    # labelled outputs: random labellings over {a,b,c,d}
+    def gen_lab(tier, rng):
+        for r in gen_out(tier, rng):
+            nodes = list(_nodes(r["obj"]))
+            for _ in range(2):
+                ordered = rng.random() < 0.5
+                root = rng.sample(list("abcd"), rng.randrange(1, 5))
+                syn = {}
+                for i, sh in enumerate(nodes):
+                    if i == 0:
+                        syn["0"] = root
+                    else:
+                        sub = [f for f in root if rng.random() < 0.7]
+                        if rng.random() < 0.1:
+                            sub = sub[::-1]
+                        syn[str(i)] = sub
+                yield dict(r, syn=syn, ordered=ordered)
+
+    def build_lab(method):
+        def build(recipe, src_root):
+            out, onodes, snodes, u = build_output(recipe, src_root, syn=recipe["syn"])
+            return (lambda self: getattr(self, method)()), {"self": out}, u
+        return build
+
+    for meth in ("_ordered_labeling_cost", "_unordered_labeling_cost", "labeling_cost", "cost", "reconciliation_cost"):
+        E.registry.scopes[f"{M}:SuperReconciliationOutput.{meth}"] = Scope(
+            gen_lab, build_lab(meth), describe=d + "; two random labellings over families {a,b,c,d} each (the validity precondition filters)")
+
+
+_setup_lab = setup
+
+
+def setup(E):  # noqa: F811
+    _setup_lab(E)
+    _scopes(E)
